@@ -8,5 +8,5 @@ CONSTANTS
   Fix = {}
   Record = TRUE
   Allow = {}
-INVARIANTS Conforms PropertyHolds RoundsBound
+INVARIANTS Conforms RoundsBound
 CHECK_DEADLOCK FALSE
